@@ -152,8 +152,17 @@ def aggregation_cases(tier):
                         rng = np.random.default_rng({n})
                         x = {scale}*(0.3 + rng.random({n}))
                         m = pym.{name}(pym.Signal('x', x), pym.Signal('y'), {par})
-                        MODE = 'smooth'; H0 = {scale}*min(1e-2, 0.1/abs({par})); POINTS = 2
+                        MODE = 'smooth'; H0 = {scale}*min(1e-2, 0.1/abs({par})); POINTS = 2; PSTEP = 0.05*{scale}
                         """))
+    # (a') p-norm of data of both signs (differentiable away from zero entries; the module only warns)
+    for n in (2, 5):
+        for par in (2.0, 3.0, 4.0, 7.0):
+            yield (('PNorm', n, par, 'mixed signs'), D(f"""
+                rng = np.random.default_rng({n})
+                x = (0.3 + rng.random({n}))*np.where(np.arange({n}) % 2, -1.0, 1.0)
+                m = pym.PNorm(pym.Signal('x', x), pym.Signal('y'), {par})
+                MODE = 'smooth'; H0 = 1e-2; POINTS = 2; PSTEP = 0.05
+                """))
     # (b) scaling and/or active set: frozen at the evaluated point; closed-form reference  sf0 * f(x[sel0])
     asets = [None, (0.0, 1.0, 0.0, 1.0), (0.15, 1.0, 0.0, 1.0), (0.0, 0.8, 0.0, 1.0), (0.0, 1.0, 0.3, 1.0), (0.0, 1.0, 0.0, 0.72), (0.1, 0.95, 0.15, 0.88)]
     for name in ('PNorm', 'KSFunction', 'SoftMinMax'):
@@ -175,11 +184,11 @@ def aggregation_cases(tier):
                                 sel = np.ones(x0s[0].size, dtype=bool) if ASET is None else own_active(x0s[0], *ASET)
                                 sf = float(m.sig_out[0].state)/f_own(x0s[0][sel], '{name}', {par})
                                 return [sf*f_own(xs[0][sel], '{name}', {par})]
-                            MODE = 'smooth'; H0 = min(1e-2, 0.1/abs({par})); POINTS = 3; HISTORY = {damp in (None, 0.0)}
+                            MODE = 'smooth'; H0 = min(1e-2, 0.1/abs({par})); POINTS = 3; PSTEP = 0.05; HISTORY = {damp in (None, 0.0)}
                             """))
 
 
-@bound('PNorm/KSFunction/SoftMinMax, n in {1,2,7} [quick] / {1,2,3,7,20}, parameters +-2..30, positive data on scales 0.02/1/40, 2 points per object (reference = extrapolated differences of response()); '
+@bound('PNorm/KSFunction/SoftMinMax, n in {1,2,7} [quick] / {1,2,3,7,20}, parameters +-2..30, positive data on scales 0.02/1/40, PNorm also on data of both signs, 2 points per object (reference = extrapolated differences of response()); '
        'with AggScaling(min/max, damping none/0/0.4) x 6 active-set settings, n in {2,9} [quick], 3 points per object: scaling factor and active set frozen, closed-form reference')
 def aggregation(r, tier, seed):
     run(r, aggregation_cases(tier), seed)
@@ -663,8 +672,8 @@ def linsolve_cases(tier, cg_zero_column=False):
     # explicit solver objects
     solvers = [('gen', None, 'pym.solvers.SolverDenseLU()'), ('gen', None, 'pym.solvers.SolverDenseQR()'), ('spd', None, 'pym.solvers.SolverDenseCholesky()'), ('herm', None, 'pym.solvers.SolverDenseCholesky()'),
                ('sym', None, 'pym.solvers.SolverDenseLDL()'), ('hermind', None, 'pym.solvers.SolverDenseLDL(hermitian=True)'), ('csym', None, 'pym.solvers.SolverDenseLDL(hermitian=False)'),
-               ('gen', 'csc', 'pym.solvers.SolverSparseLU()'), ('cgen', 'csr', 'pym.solvers.SolverSparseLU()'), ('spd', 'csc', 'pym.solvers.CG(tol=1e-13)'),
-               ('spd', 'csc', 'pym.solvers.CG(preconditioner=pym.solvers.ILU(), tol=1e-13)')]
+               ('gen', 'csc', 'pym.solvers.SolverSparseLU()'), ('cgen', 'csr', 'pym.solvers.SolverSparseLU()'), ('spd', 'csc', 'pym.solvers.CG(tol=1e-13, maxit=300)'),
+               ('spd', 'csc', 'pym.solvers.CG(preconditioner=pym.solvers.ILU(), tol=1e-13, maxit=300)')]
     for kind, sparse, solver in solvers:
         for rhs in ('vec', 'blk'):
             for lda in (True, False):
@@ -826,7 +835,7 @@ def eig_cases(tier):
                         assert trial < 999
                         ins = [pym.Signal('A', A)] + ([pym.Signal('B', B)] if B is not None else [])
                         m = pym.EigenSolve(ins, [pym.Signal('W'), pym.Signal('Q')]{o})
-                        MODE = 'smooth'; H0 = 1e-3; POINTS = 2; VCLASS = [{vca!r}] + ([{vcb!r}] if B is not None else [])
+                        MODE = 'smooth'; H0 = {5e-4 if kind in ('herm', 'cgen') else 1e-3}; PSTEP = {1e-3 if kind in ('herm', 'cgen') else 3e-3}; POINTS = 2; VCLASS = [{vca!r}] + ([{vcb!r}] if B is not None else [])
                         SEEDS = [['rand', 'rand'], ['rand', None], [None, 'rand'], [None, 'unit'], ['unit', None], ['int', 'int']]
                         """))
     for B in (False, True):
